@@ -93,12 +93,17 @@ def ref_pld(p1, p2, p3):
 REF = [ref_distance, ref_angle, ref_inner, ref_pld]
 
 
-def close(a, b, tol=TOL):
+def close(a, b, tol=TOL, slack=1e-6):
     if math.isnan(a) or math.isnan(b):
         return math.isnan(a) and math.isnan(b)
     if math.isinf(a) or math.isinf(b):
         return a == b
-    return abs(a - b) <= tol * max(abs(a), abs(b)) + 1e-6
+    return abs(a - b) <= tol * max(abs(a), abs(b)) + slack
+
+
+def slack_of(case):
+    """absolute slack of a comparison: 1e-6 for angles (scale-free), 1e-6 x the figure's size for the two distances"""
+    return 1e-6 * (2.0 ** case.get("sexp", 0) if case.get("fn") in (0, 3) else 1.0)
 
 
 # ------------------------------------------------------------------------------------------------
@@ -206,6 +211,12 @@ class C17(common.Prop):
                 else:
                     pts[1][c] = pts[0][c]
                     pts[2][c] = pts[0][c]
+        # overall size of the figure: the definitions are homogeneous (angles scale-free, distances linear), so a figure of size
+        # 2^-20 is as non-degenerate as one of size 1 (exact scaling by a power of two; squares stay far above the float32
+        # underflow threshold)
+        sexp = rng.choice([0, 0, 0, 0, -10, -20, -20, 7])
+        if sexp:
+            pts = [f32(x.astype(np.float64) * 2.0 ** sexp) for x in pts]
         mode = rng.choice(["none", "points", "points", "points", "partial", "all"])
         valid = []
         for t in range(3):
@@ -231,7 +242,7 @@ class C17(common.Prop):
             malformed = True
             t, c, d = rng.randrange(3 if fn >= 2 else 2), rng.randrange(n), rng.randrange(D)
             pts[t][c][d] = rng.choice([float("nan"), float("inf")])
-        return {"kind": "cell", "fn": fn, "shape": [P, B, L, D], "p": [words32(x) for x in pts],
+        return {"kind": "cell", "fn": fn, "sexp": sexp, "shape": [P, B, L, D], "p": [words32(x) for x in pts],
                 "v": [[int(b) for b in v.reshape(-1)] for v in valid], "mode": mode, "grid": grid,
                 "tags": sorted(tags), "garbage": sorted(garbage), "malformed": malformed}
 
@@ -289,7 +300,7 @@ class C17(common.Prop):
         if case["kind"] == "cell":
             P, B, L, D = case["shape"]
             return ("cell", FN[case["fn"]], D, case.get("mode"), "gt1" if min(P, B, L) > 1 else "has1",
-                    "garbage" if case.get("garbage") else "clean", "degenerate" if case.get("tags") else "generic",
+                    "garbage" if case.get("garbage") else "clean", "degenerate" if case.get("tags") else "generic", "2^%d" % case.get("sexp", 0),
                     "malformed" if case.get("malformed") else "ok")
         return ("layout", case["backend"], case.get("flavour"), case.get("mem", "contiguous"), len(case["header"]), tuple(len(m) for m in case["mods"]),
                 "D=fmt" if case["header"] and case["header"][0][1] == case["D"] else "D!=fmt")
@@ -423,7 +434,7 @@ class C17(common.Prop):
                     comparable = fn in (0, 1) or cl["well_raw"][c] or cl["deg"][c]
                 else:
                     comparable = True
-                if comparable and not close(a, b):
+                if comparable and not close(a, b, slack=slack_of(case)):
                     return "%s %s cell %d: implementation %r, model %r (tolerance %g)" % (be, FN[fn], c, a, b, TOL)
         return None
 
@@ -455,7 +466,7 @@ class C17(common.Prop):
                     if math.isnan(x) or math.isinf(x):
                         return {"what": "%s %s returns %r (never NaN / infinity)" % (be, FN[fn], x), "backend": be, "clause": "never_nan",
                                 "fn": FN[fn], "cell": c, "under_mask": bool(cl["missing"][c] or not cl["allvalid"][c])}
-                if cl["well"][c] and not close(x, float(cl["ref"][c])):
+                if cl["well"][c] and not close(x, float(cl["ref"][c]), slack=slack_of(case)):
                     return {"what": "%s %s = %r, textbook formula (float64) = %r" % (be, FN[fn], x, float(cl["ref"][c])), "backend": be,
                             "clause": "formula", "fn": FN[fn], "cell": c}
         # cross-backend agreement on well-conditioned cells
@@ -465,7 +476,7 @@ class C17(common.Prop):
                 vs = [(be, v[c]) for be, v in sorted(oks.items())]
                 for (b1, x1) in vs:
                     for (b2, x2) in vs:
-                        if not close(x1, x2, 2 * TOL):
+                        if not close(x1, x2, 2 * TOL, slack=slack_of(case)):
                             return {"what": "%s: %s gives %r, %s gives %r" % (FN[fn], b1, x1, b2, x2), "backend": b1 + "/" + b2,
                                     "clause": "cross_backend", "fn": FN[fn], "cell": c}
         return None
